@@ -191,7 +191,8 @@ Fixpoint fire_loop (h : handler) (m : nat) (c : Z) (fuel : nat) (st : opst) : op
 
 Inductive oop :=
 | OEv (s : N) (id : N) (key : N) (timers : list pbts)
-| OWm (s : N) (p : pbts).
+| OWm (s : N) (p : pbts)
+| OComplete (s : N).   (* SourceComplete from runner s (at least one other runner stays active) *)
 
 Definition op_step (h : handler) (m : nat) (st : opst) (o : oop) : opst * list call :=
   match o with
@@ -199,6 +200,10 @@ Definition op_step (h : handler) (m : nat) (st : opst) (o : oop) : opst * list c
   | OWm s p =>
       let r1 := reg_note (o_reg st) s p in
       fire_loop h m (r_wm r1) (S (length (r_timers r1))) {| o_reg := r1; o_batch := o_batch st |}
+  | OComplete _ =>
+      (* handleSourceComplete: the pending batch is processed, the runner is marked inactive; its last report
+         STAYS in the upstream table - a finished runner still counts in the minimum *)
+      process_batch h st
   end.
 
 (* calls grouped per incoming event *)
@@ -213,4 +218,5 @@ Fixpoint oop_msgs (ops : list oop) : list (N * Z) :=
   | [] => []
   | OWm s p :: r => (s, as_time p) :: oop_msgs r
   | OEv _ _ _ _ :: r => oop_msgs r
+  | OComplete _ :: r => oop_msgs r
   end.
